@@ -548,6 +548,11 @@ func (in *Interp) fork(conds []*Term, what string) int {
 	d := feas[0]
 	if len(feas) > 1 {
 		ps.forks = append(ps.forks, ForkRec{depth: len(ps.taken), alts: feas[1:]})
+		if forkStat != nil {
+			forkMu.Lock()
+			forkStat[what] += len(feas) - 1
+			forkMu.Unlock()
+		}
 	}
 	ps.taken = append(ps.taken, d)
 	ps.pos++
@@ -995,3 +1000,12 @@ func (in *Interp) concretize(t *Term, what string) int {
 }
 
 var debugTrace = os.Getenv("GOSYM_TRACE") != ""
+
+var forkStat map[string]int
+var forkMu sync.Mutex
+
+func init() {
+	if os.Getenv("GOSYM_FORKSTAT") != "" {
+		forkStat = map[string]int{}
+	}
+}
